@@ -8,10 +8,12 @@ import (
 	"github.com/pip-services3-gox/pip-services3-expressions-gox/calculator"
 	"github.com/pip-services3-gox/pip-services3-expressions-gox/calculator/functions"
 	cparsers "github.com/pip-services3-gox/pip-services3-expressions-gox/calculator/parsers"
+	"github.com/pip-services3-gox/pip-services3-expressions-gox/csv"
 	rio "github.com/pip-services3-gox/pip-services3-expressions-gox/io"
 	"github.com/pip-services3-gox/pip-services3-expressions-gox/mustache"
 	mparsers "github.com/pip-services3-gox/pip-services3-expressions-gox/mustache/parsers"
 	"github.com/pip-services3-gox/pip-services3-expressions-gox/tokenizers"
+	"github.com/pip-services3-gox/pip-services3-expressions-gox/tokenizers/generic"
 	"github.com/pip-services3-gox/pip-services3-expressions-gox/variants"
 	"pgregory.net/rapid"
 	"verif/pbt/evid"
@@ -44,7 +46,7 @@ type c05Case struct {
 	Steps []c05Step `json:"steps"`
 }
 
-var c05Kinds = []string{"generic", "expression", "csv", "mustache", "exprparser", "calculator", "mustacheparser", "template"}
+var c05Kinds = []string{"generic", "expression", "csv", "mustache", "exprparser", "calculator", "mustacheparser", "template", "csv-custom", "generic-custom"}
 
 var c05Vars = []binding{{"a", vInt(3)}, {"b", vInt(4)}, {"c", vString("x")}, {"d", vArray(vInt(1), vInt(2))}, {"e", vNull()}, {"x", vInt(7)}, {"y", vDouble(2.5)}, {"f", vBool(true)}}
 var c05Map = map[string]string{"a": "A", "b": "", "c": "x/y", "name": "N", "if": "I"}
@@ -65,6 +67,27 @@ func newC05Instance(kind string, opts int) *c05Instance {
 	switch kind {
 	case "generic", "expression", "csv", "mustache":
 		in.tok = newTokenizer(kind)
+		if opts >= 0 {
+			setOptions(in.tok, opts)
+		}
+	case "csv-custom":
+		// non-Latin separators and quotes: overlapping registrations above U+00FF in the character maps
+		ct := csv.NewCsvTokenizer()
+		ct.SetFieldSeparators([]rune{'，', ';', '‖'})
+		ct.SetQuoteSymbols([]rune{'«', '"', '“'})
+		in.tok = ct
+		if opts >= 0 {
+			setOptions(in.tok, opts)
+		}
+	case "generic-custom":
+		gt := generic.NewGenericTokenizer()
+		gt.SymbolState().Add("≠", tokenizers.Symbol)
+		gt.SymbolState().Add("≤≥", tokenizers.Symbol)
+		gt.SymbolState().Add("→", tokenizers.Symbol)
+		gt.SetCharacterState('≠', '≥', gt.SymbolState())
+		gt.SetCharacterState('→', '→', gt.SymbolState())
+		gt.SetCharacterState(0x3000, 0x303f, gt.WhitespaceState())
+		in.tok = gt
 		if opts >= 0 {
 			setOptions(in.tok, opts)
 		}
@@ -107,7 +130,7 @@ func errRepr(err error) string {
 func (in *c05Instance) run(st c05Step) (obs string) {
 	f := guard(func() {
 		switch in.kind {
-		case "generic", "expression", "csv", "mustache":
+		case "generic", "expression", "csv", "mustache", "csv-custom", "generic-custom":
 			in.tok.SetReader(rio.NewStringScanner(st.Input))
 			var toks []tk
 			limit := len([]rune(st.Input)) + 2
@@ -199,6 +222,7 @@ var c05Pool = []string{
 	"{{", "}}", "{{{", "}}}", "{{a}}", "{{{a}}}", "x{{a}}y", "{{#a}}in{{/a}}", "{{^b}}no{{/b}}", "{{#if a}}1{{/if}}", "{{! c }}t",
 	"a", "abc", "A1_b", "é", "中文", "1", "12.5", ".5", "-3", "1e5", "2.5E-3", "'s'", "'a''b'", "\"q\"", "'é'", "/* c */ 1", "# c\n1", "x // y",
 	" ", " \t\n ", "a b", "a\nb\r\nc", "a+b*2", "(a+b)*x", "d[1]", "Min(a,b,x)", "a IS NOT NULL", "x NOT IN d", "NOT f", "a LIKE c", "-a", "c+c",
+	"名，b", "，", "a，b‖c;d", "«x，y»，z", "名", "a ≠ b ≤≥ c → d", "≤", "x　y", "日本語 テスト",
 	"c = 'x'", "c = 'X'", "'abc' + c", "'ABC' + c", "{{Name}} x", "{{name}} X", "Fx() + a", "Gx(b)", "Gx(Fx(), c)", "v1 + v2 * total", "Total + rate", "\"qty[1]\" + \"qty{1}\"",
 	"'abc", "\"abc", "/* x", "{{a", "{{#a}}x", "{{/a}}", "a +", "(a", "a)", "a[1", "f(", "1 2", "a,,b", ",", "\r\n", "\n\r", "\"x\",\"y\"\r\nz", "a;b", "😀", "a 😀 b", "{{ 😀 }}", "",
 }
@@ -242,7 +266,7 @@ func TestC05_Exhaustive(t *testing.T) {
 	rec.Exhaustive = true
 	rec.DupFree = true
 	defer finish(t, rec)
-	triples := pick(40, 400)
+	triples := pick(20, 400)
 	rec.Bounds = fmt.Sprintf("every ordered pair of the %d-input pool x 8 instance kinds (tokenizers as constructed and with all options off), plus per pair %d seeded third inputs (triples), plus every pair with the first feed aborted after 1 token and 2 has-next queries per token",
 		len(c05Pool), triples/len(c05Kinds))
 	n := len(c05Pool)
@@ -251,7 +275,7 @@ func TestC05_Exhaustive(t *testing.T) {
 		x := verifSeed()*7919 + uint64(i)
 		for _, kind := range c05Kinds {
 			optSets := []int{-1}
-			isTok := kind == "generic" || kind == "expression" || kind == "csv" || kind == "mustache"
+			isTok := kind == "generic" || kind == "expression" || kind == "csv" || kind == "mustache" || kind == "csv-custom" || kind == "generic-custom"
 			if isTok {
 				optSets = []int{-1, 0}
 			}
@@ -275,15 +299,28 @@ func TestC05_RapidSM(t *testing.T) {
 	defer finish(t, rec)
 	runRapid(t, pick(15000, 100000), 5, func(rt *rapid.T) {
 		kind := rapid.SampledFrom(c05Kinds).Draw(rt, "kind")
-		isTok := kind == "generic" || kind == "expression" || kind == "csv" || kind == "mustache"
+		isTok := kind == "generic" || kind == "expression" || kind == "csv" || kind == "mustache" || kind == "csv-custom" || kind == "generic-custom"
 		opts := -1
 		if isTok && rapid.Bool().Draw(rt, "setopts") {
 			opts = rapid.IntRange(0, optAll).Draw(rt, "opts")
 		}
 		n := rapid.IntRange(2, 10).Draw(rt, "n")
+		manyVars := !isTok && rapid.IntRange(0, 11).Draw(rt, "manyvars") == 0
+		if manyVars {
+			n = rapid.IntRange(20, 70).Draw(rt, "longn") // dozens of feeds that keep introducing new variable names
+		}
 		var steps []c05Step
 		for i := 0; i < n; i++ {
 			in := rapid.SampledFrom(c05Pool).Draw(rt, "input")
+			if manyVars {
+				stems := []string{"v", "V", "total", "Total", "x_"}
+				in = fmt.Sprintf("%s%d + %s%d * 2", rapid.SampledFrom(stems).Draw(rt, "stem1"), rapid.IntRange(1, 60).Draw(rt, "n1"), rapid.SampledFrom(stems).Draw(rt, "stem2"), rapid.IntRange(1, 60).Draw(rt, "n2"))
+				if kind == "mustacheparser" || kind == "template" {
+					in = strings.ReplaceAll(strings.ReplaceAll("{{"+in+"}}", " + ", "}}{{"), " * 2", "")
+				}
+				steps = append(steps, c05Step{in, -1, 0, 0})
+				continue
+			}
 			switch rapid.IntRange(0, 6).Draw(rt, "mut") {
 			case 0:
 				in += rapid.SampledFrom(c05Pool).Draw(rt, "input2")
